@@ -45,3 +45,8 @@ func init() {
 		Outside:     []string{"placement of braces in keys longer than the bound (the CRC of longer untagged keys follows from the table and step lemmas by induction)"},
 	})
 }
+
+func init() {
+	register(&CheckSpec{ID: "SMOKE", Patterns: []string{pkgServer},
+		Jobs: func(tier string) []*JobCfg { return []*JobCfg{job(pkgServer, "HarnessSmoke")} }})
+}
